@@ -36,6 +36,14 @@ fn main() {
         props::c06::worker_main(&args[2], &args[3]);
         return;
     }
+    if args[1] == "defs-par" {
+        props::replay_one::run_defs_par();
+        return;
+    }
+    if args[1] == "defs" {
+        props::replay_one::run_defs();
+        return;
+    }
     if args[1] == "one" {
         props::replay_one::run(&args[2]);
         return;
